@@ -539,4 +539,7 @@ def run(ctx):
     C08paging.python_sites(ctx, repo, rule='C10.5-latch', floor=8)
     from sa.rules import hwstate
     hwstate.run(ctx, repo, 'C10.6-hwstate')
+    from sa.rules import intloop
+    intloop.run(ctx, repo, 'C10.7-int-window')
+    intloop.c_conditions(ctx, repo, 'C10.8-int-condition')
     return report.finish(ctx, EXPLANATION)
